@@ -130,7 +130,7 @@ def consumers(ctx, rule, only=None):
                     if isinstance(st, dict) and st.get("k") == "let" and st["p"].get("k") == "bind" and isinstance(st.get("i"), dict):
                         lets.setdefault(st["p"]["n"], []).append(pathx.desc(st["i"]))
                 isd = [c2 for c2 in facts.children(g) if c2.kind == "closure" and pathx.desc(thir.peel(thir.root(c2))) == "PartialEq::eq(t, Dir)"]
-                ctx.require(args == [["self.0", "path", "is_dir"]] and lets.get("is_dir") == ["Option::map_or(file_type, False, closure)"] and len(isd) == 1, rule,
+                ctx.require(args == [["self.0", "path", "is_dir"]] and lets.get("is_dir") in (["Option::map_or(file_type, False, closure)"], ["Option::is_some_and(file_type, closure)"]) and len(isd) == 1, rule,
                             "probe:" + name, "the event's path is probed with is_dir = (file type known and Dir)", g.loc(g.line), detail="%s %s" % (args, lets.get("is_dir")))
                 ctx.require(any("NormalizePath::normalize(" in d for d in lets.get("path", [])), rule, "probe-normalised:" + name,
                             "the path is normalised before both the lookup and the scope test", g.loc(g.line), detail=str(lets.get("path")),
@@ -290,6 +290,17 @@ def run(ctx):
             # feasibility: `let match_ = None` (skipped node) cannot take a non-None arm
             letv = [e for e in ev if e[0] == "let" and e[1] == "match_"]
             arms = [e for e in ev if e[0] == "arm" and e[1] == "match_"]
+            if not arms:
+                # the dispatch spelled as a test: `if !matches!(match_, Match::None) { return match_ }` / `if match_ == Match::None`
+                for e in ev:
+                    if e[0] == "branch":
+                        core, neg = pathx.split_not(e[1])
+                        if core == "PartialEq::eq(match_, None)":
+                            arms = [("arm", "match_", ("None" if (bool(e[2]) != neg) else "_",), 0)]
+                            break
+                    elif e[0] == "iflet" and e[1] == "match_" and tuple(e[2]) == ("None",):
+                        arms = [("arm", "match_", ("None" if e[3] else "_",), 0)]
+                        break
             if letv and letv[0][2] == "None" and arms and arms[0][2][0] != "None":
                 continue
             n_paths += 1
